@@ -4,15 +4,22 @@
    handler.transports and the per-address semaphores at every quiescent point.  The model replays
    the same schedule: every item must be enabled, every snapshot must agree, and the event trace
    (hook calls, layer events, connect/read/write/close calls, coroutine exits) must be identical. *)
-From Coq Require Import List Bool Arith.
+From Coq Require Import List Bool Arith Ascii String.
 From MV Require Import Base.Bytes Model.ConnHandler.
 Import ListNotations.
 
+(* numerals as named constants and rows as plain constructors: generated case files elaborate faster *)
+Definition n0 := 0. Definition n1 := 1. Definition n2 := 2. Definition n3 := 3. Definition n4 := 4.
+Definition n5 := 5. Definition n6 := 6. Definition n7 := 7. Definition n8 := 8. Definition n9 := 9.
+Inductive trow := TR (c : nat) (has_writer closed : bool).
+Inductive srow := SR (a v waiters : nat).
+
 Inductive sitem :=
 | I (i : item)
-| Snap (tr : list (nat * (bool * bool))) (sems : list (nat * (nat * nat))).
+| Snap (tr : list trow) (sems : list srow)
+| SnapSame.   (* the snapshot taken here equals the previous one *)
 
-Record case := mkCase { k_script : list (list cmd); k_sched : list sitem; k_trace : list ev; k_main_done : bool }.
+Record dcase := mkCase { k_script : list (list cmd); k_sched : list sitem; k_trace : list ev; k_main_done : bool }.
 
 Definition hook_eqb (a b : hookname) : bool :=
   match a, b with
@@ -45,34 +52,162 @@ Definition ev_eqb (a b : ev) : bool :=
   | _, _ => false
   end.
 
-Fixpoint entries (l : list conn) (i : nat) : list (nat * (bool * bool)) :=
+Fixpoint entries (l : list conn) (i : nat) : list trow :=
   match l with
   | [] => []
   | x :: l' =>
     let rest := entries l' (S i) in
-    if c_entry x then (i, (match c_writer x with WNone => false | _ => true end,
-                           match c_writer x with WClosed => true | _ => false end)) :: rest
+    if c_entry x then TR i (match c_writer x with WNone => false | _ => true end)
+                              (match c_writer x with WClosed => true | _ => false end) :: rest
     else rest
   end.
 
-Definition tr_eqb (a b : nat * (bool * bool)) : bool :=
-  Nat.eqb (fst a) (fst b) && Bool.eqb (fst (snd a)) (fst (snd b)) && Bool.eqb (snd (snd a)) (snd (snd b)).
+Definition tr_eqb (a b : trow) : bool :=
+  match a, b with TR c w k, TR c' w' k' => Nat.eqb c c' && Bool.eqb w w' && Bool.eqb k k' end.
 
-Definition snap_ok (s : st) (tr : list (nat * (bool * bool))) (sems : list (nat * (nat * nat))) : bool :=
+Definition snap_ok (s : st) (tr : list trow) (sems : list srow) : bool :=
   list_eqb tr_eqb (entries (conns s) 0) tr &&
-  forallb (fun x => Nat.eqb (semval s (fst x)) (fst (snd x)) && Nat.eqb (length (semq s (fst x))) (snd (snd x))) sems.
+  forallb (fun x => match x with SR a v w => Nat.eqb (semval s a) v && Nat.eqb (List.length (semq s a)) w end) sems.
 
-Fixpoint replay (s : st) (l : list sitem) : option st :=
+Definition snapshot := (list trow * list srow)%type.
+
+Fixpoint replay (s : st) (last : snapshot) (l : list sitem) : option st :=
   match l with
   | [] => Some s
-  | I i :: l' => match step s i with Some s' => replay s' l' | None => None end
-  | Snap tr sems :: l' => if snap_ok s tr sems then replay s l' else None
+  | I i :: l' => match step s i with Some s' => replay s' last l' | None => None end
+  | Snap tr sems :: l' => if snap_ok s tr sems then replay s (tr, sems) l' else None
+  | SnapSame :: l' => if snap_ok s (fst last) (snd last) then replay s last l' else None
   end.
 
 Definition main_done (s : st) : bool := match mainpc s with MDone _ => true | _ => false end.
 
-Definition check_case (c : case) : bool :=
-  match replay (init (k_script c)) (k_sched c) with
+Definition check_dcase (c : dcase) : bool :=
+  match replay (init (k_script c)) ([], []) (k_sched c) with
   | None => false
   | Some s => list_eqb ev_eqb (rev (trace s)) (k_trace c) && Bool.eqb (main_done s) (k_main_done c)
   end.
+
+(* ---------------------------------------------------------------- compact encoding of a case
+   Generated case files carry each case as one string literal (elaborating constructor terms of
+   this size costs ~0.1 s per case).  A number n < 64 is the character with code 40+n, larger
+   numbers are a single-quote followed by two such characters (n = 64*hi + lo).  The token stream
+   is: script (command lists, each closed by 0; END) sched (END) trace (END) main_done.
+   Any decoding failure makes check_case false. *)
+Fixpoint toks (s : string) (stt acc : nat) : list nat :=
+  match s with
+  | EmptyString => []
+  | String a s' =>
+    let n := nat_of_ascii a in
+    match stt with
+    | 0 => if Nat.eqb n 39 then toks s' 1 0 else (n - 40) :: toks s' 0 0
+    | 1 => toks s' 2 ((n - 40) * 64)
+    | _ => (acc + (n - 40)) :: toks s' 0 0
+    end
+  end.
+
+Definition END := 63.
+Definition opt_cons {A B} (x : A) (r : option (list A * B)) : option (list A * B) :=
+  match r with Some (l, rest) => Some (x :: l, rest) | None => None end.
+Definition nb (n : nat) : bool := negb (Nat.eqb n 0).
+
+Fixpoint pcmds (f : nat) (l : list nat) : option (list cmd * list nat) :=
+  match f with O => None | S f' =>
+    match l with
+    | 0 :: r => Some ([], r)
+    | 1 :: a :: r => opt_cons (COpen (Some a)) (pcmds f' r)
+    | 2 :: r => opt_cons (COpen None) (pcmds f' r)
+    | 3 :: c :: r => opt_cons (CClose c) (pcmds f' r)
+    | 4 :: c :: r => opt_cons (CHalf c) (pcmds f' r)
+    | 5 :: c :: r => opt_cons (CSend c) (pcmds f' r)
+    | 6 :: r => opt_cons CHook (pcmds f' r)
+    | 7 :: r => opt_cons CLog (pcmds f' r)
+    | _ => None
+    end
+  end.
+Fixpoint pscript (f : nat) (l : list nat) : option (list (list cmd) * list nat) :=
+  match f with O => None | S f' =>
+    match l with
+    | [] => None
+    | x :: r => if Nat.eqb x END then Some ([], r)
+                else match pcmds f' l with
+                     | Some (ks, r') => opt_cons ks (pscript f' r')
+                     | None => None
+                     end
+    end
+  end.
+Definition ptid (l : list nat) : option (tid * list nat) :=
+  match l with
+  | 0 :: r => Some (TMain, r)
+  | 1 :: c :: r => Some (TConn c, r)
+  | 2 :: k :: r => Some (THook k, r)
+  | _ => None
+  end.
+Definition prres (n : nat) : rres := match n with 0 => RData | 1 => REof | _ => RErr end.
+Fixpoint ptrows (n : nat) (l : list nat) : option (list trow * list nat) :=
+  match n with O => Some ([], l) | S n' =>
+    match l with c :: w :: k :: r => opt_cons (TR c (nb w) (nb k)) (ptrows n' r) | _ => None end end.
+Fixpoint psrows (n : nat) (l : list nat) : option (list srow * list nat) :=
+  match n with O => Some ([], l) | S n' =>
+    match l with a :: v :: w :: r => opt_cons (SR a v w) (psrows n' r) | _ => None end end.
+Fixpoint psched (f : nat) (l : list nat) : option (list sitem * list nat) :=
+  match f with O => None | S f' =>
+    match l with
+    | 0 :: r => match ptid r with Some (t, k :: r') => opt_cons (I (AHook t (nb k))) (psched f' r') | _ => None end
+    | 1 :: c :: x :: r => opt_cons (I (ARead c (prres x))) (psched f' r)
+    | 2 :: c :: x :: r => opt_cons (I (AConn c (nb x))) (psched f' r)
+    | 3 :: r => opt_cons (I ATimeout) (psched f' r)
+    | 4 :: c :: r => opt_cons (I (ABreak c)) (psched f' r)
+    | 5 :: r => match ptid r with Some (t, k :: r') => opt_cons (I (Run t (nb k))) (psched f' r') | _ => None end
+    | 6 :: n :: r => match ptrows n r with
+                     | Some (tr, m :: r') => match psrows m r' with
+                                             | Some (sm, r'') => opt_cons (Snap tr sm) (psched f' r'')
+                                             | None => None end
+                     | _ => None end
+    | 7 :: r => opt_cons SnapSame (psched f' r)
+    | x :: r => if Nat.eqb x END then Some ([], r) else None
+    | [] => None
+    end
+  end.
+Definition phook (n : nat) : hookname :=
+  match n with 0 => HClientConnected | 1 => HClientDisconnected | 2 => HServerConnect | 3 => HServerConnected
+             | 4 => HServerConnectError | 5 => HServerDisconnected | _ => HLayer end.
+Fixpoint ptrace (f : nat) (l : list nat) : option (list ev * list nat) :=
+  match f with O => None | S f' =>
+    match l with
+    | 0 :: h :: c :: r => opt_cons (EHook (phook h) c) (ptrace f' r)
+    | 1 :: r => opt_cons (ELayer LStart) (ptrace f' r)
+    | 2 :: c :: r => opt_cons (ELayer (LData c)) (ptrace f' r)
+    | 3 :: c :: r => opt_cons (ELayer (LClosed c)) (ptrace f' r)
+    | 4 :: c :: e :: r => opt_cons (ELayer (LOcc c (nb e))) (ptrace f' r)
+    | 5 :: k :: r => opt_cons (ELayer (LHookDone k)) (ptrace f' r)
+    | 6 :: c :: r => opt_cons (EConnect c) (ptrace f' r)
+    | 7 :: c :: r => opt_cons (ERead c) (ptrace f' r)
+    | 8 :: c :: r => opt_cons (EWrite c) (ptrace f' r)
+    | 9 :: c :: r => opt_cons (EEof c) (ptrace f' r)
+    | 10 :: c :: r => opt_cons (EClose c) (ptrace f' r)
+    | 11 :: r => opt_cons ECrash (ptrace f' r)
+    | 12 :: r => match ptid r with Some (t, k :: r') => opt_cons (EDone t k) (ptrace f' r') | _ => None end
+    | x :: r => if Nat.eqb x END then Some ([], r) else None
+    | [] => None
+    end
+  end.
+
+Definition decode (s : string) : option dcase :=
+  let l := toks s 0 0 in
+  let f := S (List.length l) in
+  match pscript f l with
+  | Some (sc, r1) =>
+    match psched f r1 with
+    | Some (sd, r2) =>
+      match ptrace f r2 with
+      | Some (tr, [d]) => Some (mkCase sc sd tr (nb d))
+      | _ => None
+      end
+    | None => None
+    end
+  | None => None
+  end.
+
+Definition case := string.
+Definition check_case (c : case) : bool :=
+  match decode c with Some d => check_dcase d | None => false end.
